@@ -50,8 +50,40 @@ def isinst(eng, v, clsname):
     return VBool(one(v))
 
 
+def intval10(eng, s):
+    """value of a decimal literal (uninterpreted int() image; defined on the digit gate's language)"""
+    from vlib.builtins_model import F_INT
+    from vlib.pyvc import VInt
+    return VInt(F_INT[10](eng.force(s).t))
+
+
+def lower(eng, s):
+    from vlib.builtins_model import F_LOWER
+    from vlib.pyvc import VStr
+    return VStr(F_LOWER(eng.force(s).t), False)
+
+
+def cl_popped(eng):
+    from vlib.pyvc import VBool
+    return VBool(bool(eng.state.ghost.get("cl_popped", False)))
+
+
+class ParserHook:
+    """ghost: records that parse_header removed a Content-Length that was present next to a chunked Transfer-Encoding"""
+    def on_dict_write(self, eng, d=None, key=None, val=None, node=None):
+        from vlib.builtins_model import strval
+        k = eng.force(key) if key is not None else None
+        if val is None and k is not None and strval(k) == "CONTENT_LENGTH" and eng.cur_func.endswith("parse_header"):
+            eng.state.ghost["cl_popped"] = True
+
+
+def attach(eng, reg, qual):
+    eng.hooks.append(ParserHook())
+
+
 def install(reg):
     reg.spec_funcs["fdn"] = fdn
+    reg.spec_funcs.update({"intval10": intval10, "lower": lower, "cl_popped": cl_popped})
     reg.spec_funcs["isinst"] = isinst
     for cls in ("utilities.Error", "utilities.BadRequest", "utilities.RequestHeaderFieldsTooLarge", "utilities.RequestEntityTooLarge",
                 "utilities.ServerNotImplemented", "utilities.InternalServerError"):
@@ -78,6 +110,15 @@ def install(reg):
         loops={0: LoopSpec(invariants=[("true", "True")]), 1: LoopSpec(invariants=[("true", "True")])},
         raises=["parser.ParsingError", "parser.TransferEncodingNotImplemented"],
         ensures=[
+            ("C01-chunked-only-on-1.1", "implies(self.chunked, self.version == '1.1')"),
+            ("C01-expect-continue-only-on-1.1", "implies(self.expect_continue, self.version == '1.1')"),
+            ("C01-content-length-next-to-chunked-closes", "implies(cl_popped(), self.connection_close and self.chunked)"),
+            ("C01-transfer-encoding-on-non-1.1-closes", "implies(self.version != '1.1' and 'TRANSFER_ENCODING' in self.headers, self.connection_close)"),
+            ("C01-no-transfer-encoding-left-on-1.1", "implies(self.version == '1.1', 'TRANSFER_ENCODING' not in self.headers)"),
+            ("C01-length-is-the-gated-content-length", "implies(not self.chunked and 'CONTENT_LENGTH' in self.headers, self.content_length == intval10(self.headers['CONTENT_LENGTH']))"),
+            ("C01-no-length-means-no-body", "implies(not self.chunked and 'CONTENT_LENGTH' not in self.headers, self.content_length == 0)"),
+            ("C01-1.0-closes-unless-keep-alive", "implies(self.version == '1.0' and lower(self.headers.get('CONNECTION', '')) != 'keep-alive', self.connection_close)"),
+            ("C01-1.1-connection-close-closes", "implies(self.version == '1.1' and lower(self.headers.get('CONNECTION', '')) == 'close', self.connection_close)"),
             ("chunked-receiver", "self.chunked == isinst(self.body_rcv, 'ChunkedReceiver')"),
             ("cl-nonneg", "self.content_length >= 0"),
             ("fixed-receiver", "isinst(self.body_rcv, 'FixedStreamReceiver') == (not self.chunked and self.content_length > 0)"),
